@@ -87,4 +87,54 @@ theorem repoint_base_name (N : List (String × Addr)) (t : TRef) : (repoint N t)
 /-- non-vacuity on the witness: `Pet` after `extend … "type Zed {z: String}"` -/
 example : wfB h0 s0 = true ∧ (∀ e, e ∈ zed.newTypes → e.1 ∉ names s0) ∧ (("Pet", 1) ∈ s0.types) ∧ isProtected "Pet" = false := by decide
 
+/-! ### T9: the BEHAVIOUR of a leaf type (the class of a `ScalarType` / `EnumType` subclass instance) -/
+
+/-- FULL statement: after `extend_schema` every custom scalar / enum of the source is registered under its name as an object of
+    the same Python class — `class Upper(ScalarType)` overriding `serialize` / `parse` keeps serializing upper-case -/
+def ExtendKeepsLeafClass (cfg : Cfg) : Prop :=
+  ∀ (ext : Ext) (s : Schema) (h : Heap), wfB h s = true → (∀ e, e ∈ ext.newTypes → e.1 ∉ names s) →
+    ∀ (n : String) (a : Addr) (t : TypeO), (n, a) ∈ s.types → isProtected n = false → h.readType a = some t →
+      (t.kind = Kind.scalar ∨ t.kind = Kind.enum) →
+      ∃ a' t', lookup (extend cfg ext s h).2.types n = some a' ∧ (extend cfg ext s h).1.readType a' = some t' ∧ t'.cls = t.cls
+
+theorem extend_keeps_leaf_class (cfg : Cfg) (hk : cfg.extKeepAll = true) (hc : cfg.extLeafCopied = true) : ExtendKeepsLeafClass cfg := by
+  intro ext s h hw hnew n a t hm hp ht hl
+  obtain ⟨N, a', t', kept, added, h1, h2, h3, _⟩ := untouched_preserved_extend cfg hk ext s h hw hnew n a t hm hp ht
+  refine ⟨a', t', h1, h2, ?_⟩
+  have h8 := h3.2.2.2.2.2.2.2
+  rcases hl with hl | hl <;> simpa [hl, hc] using h8
+
+/-- a schema with one custom scalar `Upper` that is an instance of a `ScalarType` subclass (class #1) -/
+def hUp : Heap := ⟨[
+  .type { kind := .scalar, name := "Upper", desc := none, fields := [], ifaces := [], members := [], dres := none, rtype := none, values := [], prot := false, cls := some 1 },
+  .type { kind := .object, name := "Query", desc := none, fields := [2], ifaces := [], members := [], dres := none, rtype := none, values := [], prot := false },
+  .field { name := "up", ty := .named ⟨"Upper", 0⟩, args := [], desc := none, depr := none, res := some 1, sub := none, py := "up" }]⟩
+def sUp : Schema := { types := [("Upper", 0), ("Query", 1)], dirs := [], query := some ⟨"Query", 1⟩, mutation := none, subscription := none, dres := none }
+/-- `extend type Query { other: Int }` seen from `Upper`: an extension that does not name it -/
+def extOther : Ext := { newTypes := [], fields := [("Query", [{ name := "other", ty := .named "Upper", args := [] }])], inputFields := [],
+                        members := [], values := [], newDirs := [] }
+
+/-- T9, REFUTATION for the code that rebuilds a plain `ScalarType(...)`: the class is lost by an unrelated extension -/
+theorem extend_keeps_leaf_class_refuted : ¬ ExtendKeepsLeafClass { Cfg.fixed with extLeafCopied := false } := by
+  intro hf
+  obtain ⟨a', t', h1, h2, h3⟩ := hf extOther sUp hUp (by decide) (by decide) "Upper" 0 _ (by decide) (by decide)
+    (by decide : hUp.readType 0 = some ((hUp.readType 0).get (by decide))) (Or.inl (by decide))
+  have e1 : ((lookup (extend { Cfg.fixed with extLeafCopied := false } extOther sUp hUp).2.types "Upper").bind
+      (extend { Cfg.fixed with extLeafCopied := false } extOther sUp hUp).1.readType).map (·.cls) = some none := by decide
+  rw [h1] at e1
+  simp only [Option.bind_some, h2, Option.map_some, Option.some.injEq] at e1
+  rw [e1] at h3
+  revert h3
+  decide
+
+/-- … and kept by the copying variant (`copy.copy`), on the same history -/
+theorem extend_keeps_leaf_class_witness_fixed :
+    ((lookup (extend Cfg.fixed extOther sUp hUp).2.types "Upper").bind (extend Cfg.fixed extOther sUp hUp).1.readType).map (·.cls)
+      = some (some 1) := by decide
+
+/-- the variant in the working tree -/
+theorem current_extend_keeps_leaf_class (hk : PyGql.Generated.HeapCfg.currentCfg.extKeepAll = true)
+    (hc : PyGql.Generated.HeapCfg.currentCfg.extLeafCopied = true) : ExtendKeepsLeafClass PyGql.Generated.HeapCfg.currentCfg :=
+  extend_keeps_leaf_class _ hk hc
+
 end PyGql.Props.C14
